@@ -47,13 +47,14 @@ def project(fr, gname):
     return {"F": int(fr.fchans), "T": int(fr.tchans), "asc": bool(fr.ascending), "lo": lo if abs(lo_f - lo) < 1e-3 else lo_f,
             "t0": 7 if abs(fr.t_start - T0) < 1e-4 else fr.t_start, "src": str(fr.source_name),
             "tsoff": (int(round(fr.ts[0] / g["dt"])) if len(fr.ts) and abs(fr.ts[0] / g["dt"] - round(fr.ts[0] / g["dt"])) < 1e-6 else "off-grid"),
+            "tsgap": (int(round((fr.ts[-1] - fr.ts[0]) / g["dt"])) - (len(fr.ts) - 1)) if len(fr.ts) > 1 else 0,
             "data": ids.tolist() if d.shape == (fr.tchans, fr.fchans) and np.all(np.abs(d - ids) < 1e-6) else "shape %s / non-integer" % (d.shape,),
             "axes_ok": (len(fr.fs) == fr.fchans and len(fr.ts) == fr.tchans and abs(fr.df - g["df"]) < 1e-9 * g["df"]
                         and abs(fr.dt - g["dt"]) < 1e-9 * g["dt"] and tuple(fr.shape) == (fr.tchans, fr.fchans))}
 
 
 def compare(exp, obs, cls, what):
-    for k in ("F", "T", "asc", "lo", "data", "tsoff"):
+    for k in ("F", "T", "asc", "lo", "data", "tsoff", "tsgap"):
         if exp[k] != obs[k]:
             raise Div(cls, "%s.%s" % (what, k), exp[k], obs[k])
     if not obs["axes_ok"]:
@@ -160,7 +161,10 @@ def replay(beh, gname, workdir, tag):
                         os.remove(pp)
                 elif name == "ShiftTs":
                     fo = objs[act["o"] - 1]
-                    fo.ts = fo.ts + 5 * g["dt"]
+                    if act.get("kind", "shift") == "shift":
+                        fo.ts = fo.ts + 5 * g["dt"]
+                    else:
+                        fo.ts = fo.ts + np.where(np.arange(len(fo.ts)) >= 1, 5 * g["dt"], 0.0)
                 elif name == "Rebind":
                     fo = objs[act["o"] - 1]
                     if k % 3 == 0:
